@@ -10,6 +10,7 @@ C={
  "C03":("4.3","E1-enum","Every own signature of the seed/message/variant alphabet through both single verifiers and as member of batches of 18 sizes (1..200), every position, on 3 (thorough 7) build configurations.",T),
  "C04":("4.4","E1-enum","Exhaustive enumeration of the word-class alphabet for the S<L decision (all three outcomes of every 64-bit word comparison x every top byte) and of S boundary values in equation-satisfying triples through all four verifier modes.",T),
  "C05":("4.5","E1-enum","The C01 space under ZIP-215 plus the full 14x14 small-order product and constructed small-order triples, with the two mode relations checked on every triple, single and batch.",T),
+ "C06":("4.6","E1-enum + E2-seq","Deviation-bounded (number of bad entries <=2, thorough <=3) enumeration of batches over 27 lengths x positions x 15 bad-entry kinds x 6 option sets, and all sequences of <=3 full chunks over 7 chunk kinds x remainders inside one call; every entry compared with the model and with single verification.",T),
  "C07":("4.7","E1-enum","All 144 ordered variant/context pairs x keys x messages x {single, batch 4, batch 65}; every context length 0..300, digest length 0..130, hash selector 0..20 on all three entry points.",T),
  "C09":("4.9","E1-enum","Complete finite set of torsion encodings (positive), [k]B+T_i for all 8 T_i (negative), exhaustive 13-bit (thorough 16-bit) y scan, at the predicate and end to end (single and batch call sites), two limb layouts.",T),
  "C17":("4.17","E1-enum + E2-seq","The multi-scalar routine on every heap size 2n+1 (thorough: every n in 4..64) x 20 scalar-magnitude profiles (incl. common factors that make the final Bos-Coster scalar > 1) x point profiles, compared with the exact sum from the model; all sequences of <=3 chunk sizes on a reused heap; vartime helpers on limb-boundary pairs; all-valid batches of every size 4..200 end to end with the fallback hook (no fallback allowed).",T),
